@@ -388,6 +388,25 @@ func (fr *frame) eqValue(t types.Type, x, y value) value {
 		}
 		return xb == yb
 	}
+	if xr, ok := x.(rvalue); ok {
+		yr, ok := y.(rvalue)
+		if !ok {
+			if ys, isS := y.(structure); isS && len(ys) == 3 {
+				yr, ok = rvalue{}, true // an interpreted zero reflect.Value{}
+			}
+		}
+		if ok {
+			if xr.t == nil || yr.t == nil {
+				return xr.t == nil && yr.t == nil
+			}
+			return types.Identical(xr.t, yr.t) && xr.addr == yr.addr && xr.addr != nil
+		}
+	}
+	if _, ok := y.(rvalue); ok {
+		if _, isS := x.(structure); isS {
+			return fr.eqValue(t, y, x)
+		}
+	}
 	panic(fmt.Sprintf("comparing uncomparable type %s (%T vs %T)", t, x, y))
 }
 
@@ -761,27 +780,44 @@ func (fr *frame) rangeIter(x value, t types.Type) iter {
 
 // permute picks an iteration order through choice points (all permutations
 // for up to 3 entries; identity, reverse and one rotation beyond).
+//
+// With a deviation bound (-mapdev K) at most K map ranges of a path iterate in
+// a non-canonical order; once the budget is used the remaining ranges are
+// canonical and add no choice points.
 func (fr *frame) permute(keys []value) []value {
 	n := len(keys)
+	p := fr.i.p
+	if lim := fr.i.w.cfg.MapDev; lim > 0 && p.mapDev >= lim {
+		return keys
+	}
 	out := make([]value, 0, n)
 	if n <= 3 {
 		rest := append([]value(nil), keys...)
+		deviated := false
 		for len(rest) > 1 {
-			c := fr.i.p.Choice("", len(rest))
+			c := p.Choice("", len(rest))
+			if c != 0 {
+				deviated = true
+			}
 			out = append(out, rest[c])
 			rest = append(rest[:c:c], rest[c+1:]...)
 		}
+		if deviated {
+			p.mapDev++
+		}
 		return append(out, rest...)
 	}
-	switch fr.i.p.Choice("", 3) {
+	switch p.Choice("", 3) {
 	case 0:
 		return keys
 	case 1:
+		p.mapDev++
 		for i := n - 1; i >= 0; i-- {
 			out = append(out, keys[i])
 		}
 		return out
 	}
+	p.mapDev++
 	out = append(out, keys[n/2:]...)
 	return append(out, keys[:n/2]...)
 }
